@@ -115,8 +115,8 @@ def compare(builder, doc, stream, renderer, viol_sig_extra=None):
         if pk not in ("document", "section"):
             bad("section-in-container", f"section {t!r} has a {pk} parent", parent=pk)
     hw, other = warn_lines(stream)
-    inc = [l for l, src in hw if src.endswith("inc.md")]
-    got = sorted(l for l, src in hw if not src.endswith("inc.md"))
+    inc = [l for l, src in hw if src.endswith(("inc.md", "inc2.md"))]
+    got = sorted(l for l, src in hw if not src.endswith(("inc.md", "inc2.md")))
     want = sorted(l for l in model.warn_lines if l is not None)
     if got != want or len(inc) != sum(1 for l in model.warn_lines if l is None):
         bad("skip-warning", f"[myst.header] warnings at lines {got} (+{len(inc)} in included files), model expects lines {want} "
@@ -134,8 +134,10 @@ def compare(builder, doc, stream, renderer, viol_sig_extra=None):
     if seen != model.paras:
         bad("paragraph-parent", f"marker paragraphs (marker, parent section #) in document order {seen}, model {model.paras}")
     # nested headings -> rubrics
-    rub = [(r.astext(), r.get("level"), type(r.parent).__name__) for r in doc.findall(nodes.rubric)]
-    if [(t, l) for t, l, _ in rub] != builder.rubrics:
+    rub = [("".join(c.astext() for c in r.children if not isinstance(c, nodes.system_message)), r.get("level"), type(r.parent).__name__)
+           for r in doc.findall(nodes.rubric)]
+    # (level None = unspecified: a heading inside a directive inside an offset include is rendered by a nested parse with its own offset)
+    if [(t, l if dict(builder.rubrics).get(t, 0) is not None else None) for t, l, _ in rub] != builder.rubrics:
         bad("rubric", f"rubrics (text, level) {[(t, l) for t, l, _ in rub]}, expected {builder.rubrics}")
     for node in doc.findall(nodes.section):
         anc = node.parent
@@ -156,7 +158,7 @@ class Doc:
 
     INC = "# IA\n\nIPA\n\n## IB\n\nIPB\n"
     # a nested render (directive body, div, nested include) BETWEEN the headings of the included file
-    INC2 = "# JA\n\n```{note}\nnested body\n```\n\n:::{tip}\n### JN\n:::\n\n## JB\n\nJPB\n\n```{include} inc.md\n```\n\n## JC\n"
+    INC2 = "# JA\n\n```{note}\nnested body\n```\n\n```{tip}\n### JN\n```\n\n## JB\n\nJPB\n\n```{include} inc.md\n```\n\n## JC\n"
 
     def __init__(self, scratch):
         self.lines = []
@@ -211,7 +213,7 @@ class Doc:
             off = int(sym[1])
             self.files["inc2.md"] = self.INC2
             self.model.heading(1 + off, "JA", None)
-            self.rubrics.append(("JN", 3 + off))
+            self.rubrics.append(("JN", None))
             self.model.heading(2 + off, "JB", None)
             self.model.para("JPB")
             # the nested include is rendered with ITS OWN offset (0): levels 1 and 2
